@@ -157,3 +157,19 @@ Example tan_index_example :
   i5 = [mkIE 1 2 7 0 20; mkIE 3 4 8 10 10] /\
   index_query i4 2 20 = IQRes [mkIE 1 4 7 0 20; mkIE 5 5 7 20 10] true.
 Proof. vm_compute. repeat split; reflexivity. Qed.
+
+(* ---------------- batched entry format (internal/logdb/batch.go) ---------------- *)
+From DB Require Import Model.LogDBBatched Proofs.LogDBBatched.
+
+(* restoreBatchFields undoes compactBatchFields on every batch whose indexes are strictly
+   ascending and whose terms are non-decreasing and >= 1 (what the raft core saves) *)
+Theorem batch_compact_restore_id : forall l pi, good_from pi 1 l ->
+  restore_if_many (compact_if_many l) = l.
+Proof. exact batch_compact_restore_id_proved. Qed.
+Print Assumptions batch_compact_restore_id.
+
+Example batch_compact_example :
+  let l := [mkEnt 48 3 1 8; mkEnt 49 3 2 9; mkEnt 50 3 3 8] in
+  good_from 47 1 l /\ compact_if_many l = [mkEnt 48 3 1 8; mkEnt 0 0 2 9; mkEnt 0 0 3 8] /\
+  restore_if_many (compact_if_many l) = l.
+Proof. vm_compute. repeat split; auto; discriminate. Qed.
